@@ -2,6 +2,7 @@ package main
 
 import (
 	"bytes"
+	"encoding/json"
 	"fmt"
 	"image"
 	"image/color"
@@ -11,11 +12,13 @@ import (
 	"reflect"
 	"runtime/debug"
 	"strings"
+	"time"
 
 	"github.com/zerx-lab/wordZero/pkg/document"
 
 	"verif/harness/internal/pkgmodel"
 	"verif/harness/internal/rep"
+	"verif/harness/internal/shard"
 )
 
 func mkImage(w, h int, seed uint8) image.Image {
@@ -143,4 +146,56 @@ func problemsToViolations(prop string, probs []pkgmodel.Problem, prefix string) 
 		out = append(out, rep.Violation{Sig: prefix + p.Clause + "|" + p.Culprit, Clause: p.Clause, What: p.String()})
 	}
 	return out
+}
+
+// runShards runs a shard worker over all cores, merges its partial result into r and turns
+// cases that killed or hung their worker into violations (signature crash|<class> / hang).
+// classify may be nil; it reduces the worker's stderr to a stable culprit for the signature.
+func runShards(r *rep.Run, name string, args interface{}, hang time.Duration, classify func(ev shard.Event) string) {
+	p, events := shard.Map(name, args, shard.Opts{Deadline: r.Deadline, Tier: r.Tier, HangTimeout: hang})
+	r.Merge(p)
+	q := rep.NewPartial()
+	for _, ev := range events {
+		if !ev.Confirmed {
+			q.Notes = append(q.Notes, fmt.Sprintf("case %d %s once but not when re-run alone (not counted)", ev.Idx, ev.Kind))
+			continue
+		}
+		culprit := fatalClass(ev.Stderr)
+		if classify != nil {
+			culprit = classify(ev)
+		}
+		q.Violate(rep.Violation{Sig: ev.Kind + "|" + culprit, Clause: ev.Kind, What: fmt.Sprintf("case %d makes the worker process %s: %s", ev.Idx, ev.Kind, firstLines(ev.Stderr, 3)),
+			Case: map[string]interface{}{"worker": name, "args": args, "index": ev.Idx, "desc": ev.Desc}})
+	}
+	r.Merge(q)
+}
+
+func firstLines(s string, n int) string {
+	ls := strings.Split(strings.TrimSpace(s), "\n")
+	if len(ls) > n {
+		ls = ls[:n]
+	}
+	return strings.Join(ls, " / ")
+}
+
+// fatalClass reduces a Go runtime fatal error / panic dump to a stable class.
+func fatalClass(stderr string) string {
+	switch {
+	case strings.Contains(stderr, "stack overflow"), strings.Contains(stderr, "stack exceeds"):
+		return "stack-overflow"
+	case strings.Contains(stderr, "out of memory"), strings.Contains(stderr, "cannot allocate"):
+		return "out-of-memory"
+	case strings.Contains(stderr, "concurrent map"):
+		return "concurrent-map-access"
+	case strings.Contains(stderr, "all goroutines are asleep"):
+		return "deadlock"
+	}
+	return panicClass(stderr)
+}
+
+// shardCase is the replayable description of case idx of shard worker `name` (see replay.go).
+func shardCase(c *shard.Ctx, name string, idx int64, desc interface{}) map[string]interface{} {
+	var a interface{}
+	json.Unmarshal(c.Args, &a)
+	return map[string]interface{}{"worker": name, "args": a, "index": idx, "tier": c.Tier, "desc": desc}
 }
